@@ -6,7 +6,7 @@ from fractions import Fraction
 
 from ..absint import Interp, ObjV
 from ..forms import Const, Form, SliceV, fpow, mk_fn
-from ..rules import S
+from ..rules import S, check_late_binding
 from ..srcmodel import src_of
 from .c06 import strip_setitem
 
@@ -155,6 +155,7 @@ def run(ctx):
         ctx.check("C10.4", ok and len(bpf) == 1, fi, rets[0].node, "EDFA with BW: output through BPF", "signal and noise both band-limited", "with a bandwidth argument the whole output is not passed through the optical filter")
     else:
         ctx.unknown("C10.4", fi, fi.node, "EDFA with BW", "return not resolved")
+    check_late_binding(ctx, "C10.6", ["devices.EDFA"])
     ctx.require_min("C10.1", 6)
     ctx.require_min("C10.2", 8)
     ctx.require_min("C10.3", 5)
